@@ -46,22 +46,25 @@ def validate(records: list[dict], shards: int = NCPU, tag: str = "dyn", timeout:
         return run_tlc("Trace_Dyn.tla", cfg="Trace_Dyn.cfg", env={"TRACE_FILE": str(p)}, workers=1, timeout=timeout,
                        tag=p.name)
 
-    with ThreadPoolExecutor(shards) as ex:
-        results = list(ex.map(one, files))
-    verdicts = {}
-    states = 0
-    for p, res in zip(files, results):
-        vs = printed(res["out"], "VERDICT")
-        n = sum(1 for _ in p.open())
-        if not res["ok"] or len(vs) != n:
-            raise MachineryError(f"Trace_Dyn did not produce a verdict for every record of {p} "
-                                 f"(rc={res['rc']}, {len(vs)}/{n}):\n{tlc_error_excerpt(res['out'])}")
-        states += res["states"]
-        for v in vs:
-            verdicts[v["id"]] = v
-    for p in files:
-        p.unlink()
-    d.rmdir()
+    import shutil
+    try:
+        with ThreadPoolExecutor(shards) as ex:
+            results = list(ex.map(one, files))
+        verdicts = {}
+        states = 0
+        for p, res in zip(files, results):
+            vs = printed(res["out"], "VERDICT")
+            n = sum(1 for _ in p.open())
+            if not res["ok"] or len(vs) != n:
+                keep = WORK / "last-failed-trace.ndjson"
+                shutil.copy(p, keep)
+                raise MachineryError(f"Trace_Dyn did not produce a verdict for every record of {keep} "
+                                     f"(rc={res['rc']}, {len(vs)}/{n}):\n{tlc_error_excerpt(res['out'])}")
+            states += res["states"]
+            for v in vs:
+                verdicts[v["id"]] = v
+    finally:
+        shutil.rmtree(d, ignore_errors=True)
     out = []
     for r in records:
         if r["id"] not in verdicts:
